@@ -11,6 +11,9 @@ import os
 REPO = os.environ.get("CIW_REPO", "/repo")
 
 
+KNOWN_NAMES = set()      # class / method / function names of the analysed package (never alpha-renamed in finding keys)
+
+
 class AnalysisError(Exception):
     """Raised when an anchor is missing / an idiom is not recognised.  Exit code 2, never a VIOLATION."""
 
@@ -92,6 +95,10 @@ class Program:
                     st._cls = None
         self._mro = {}
         self._views = {}
+        for ci in self.classes.values():
+            KNOWN_NAMES.add(ci.name)
+            KNOWN_NAMES.update(ci.methods)
+        KNOWN_NAMES.update(k[1] for k in self.functions)
 
     # ---- class hierarchy -------------------------------------------------------------------
     def mro(self, cname):
@@ -238,3 +245,56 @@ def is_inf_literal(n):
     if isinstance(n, ast.Name) and n.id == "inf":
         return True
     return False
+
+
+def body_stmts(stmts):
+    """statements of a body without docstrings and `pass`"""
+    if isinstance(stmts, (ast.FunctionDef, ast.If, ast.For, ast.While)):
+        stmts = stmts.body
+    return [x for x in stmts if not isinstance(x, ast.Pass) and not (isinstance(x, ast.Expr) and isinstance(x.value, ast.Constant))]
+
+
+_KEEP = None
+
+
+def alpha(node_or_text, program=None, extra_keep=()):
+    """alpha-normalised text: every identifier that is not a builtin / package-level name / `self` is renamed by order of first
+    appearance (_1, _2, ...), so that comparisons of code shapes are insensitive to the names of locals and parameters"""
+    import builtins
+    if isinstance(node_or_text, str):
+        node = ast.parse(node_or_text)
+    else:
+        node = ast.parse(ast.unparse(node_or_text))
+    keep = set(dir(builtins)) | {"self", "ciw", "np", "random", "itertools", "copy", "nan", "isinf", "Decimal", "getcontext", "tqdm", "nx", "cycle", "add", "mul", "sub", "truediv"} | set(extra_keep)
+    if program is not None:
+        keep |= set(program.classes) | {k[1] for k in program.functions}
+    else:
+        keep |= {"random_choice", "flatten_list", "DataRecord", "Schedule", "Slotted", "Server", "Individual", "JoinShortestQueue", "LoadBalancing", "Probabilistic", "Node", "ExactNode",
+                 "ExactArrivalNode", "ArrivalNode", "ExitNode", "truncated_normal", "expovariate", "uniform", "triangular", "gammavariate", "lognormvariate", "weibullvariate"}
+    mapping = {}
+
+    class V(ast.NodeTransformer):
+        def visit_Name(self, n):
+            if n.id in keep:
+                return n
+            if n.id not in mapping:
+                mapping[n.id] = "_%d" % (len(mapping) + 1)
+            return ast.Name(id=mapping[n.id], ctx=n.ctx)
+
+        def visit_arg(self, n):
+            if n.arg in keep:
+                return n
+            if n.arg not in mapping:
+                mapping[n.arg] = "_%d" % (len(mapping) + 1)
+            n.arg = mapping[n.arg]
+            return n
+
+        def visit_keyword(self, n):
+            n.value = self.visit(n.value)
+            return n
+    out = V().visit(node)
+    return ast.unparse(ast.fix_missing_locations(out)).replace('"', "'")
+
+
+def alpha_eq(a, b, program=None):
+    return alpha(a, program) == alpha(b, program)
